@@ -315,7 +315,8 @@ def pair1(ctx: Ctx) -> List[Ob]:
                                       "a child list is bound to something other than None, [] or [new node]"))
                     continue
             else:
-                obs.append(ctx.ob("PAIR-1", ["C01"], f, node, node, False, f"unrecognised way of filling a child list ({e.op})"))
+                obs.append(ctx.ob("PAIR-1", ["C01", "C03", "C07"], f, node, node, False,
+                                  f"a child list is filled with `{e.op}`: the added values are not nodes constructed here, existing nodes would get a second parent"))
                 continue
             ok = False
             why = ""
